@@ -202,7 +202,7 @@ def recount (d : Dir) : List (String × Int) :=
   let rows := d.flatMap Utt.refRows
   let maxAli := maxOr (-1) ali
   let maxRef := maxOr (-1) (rows.map (·.tok))
-  [("num_utterances", (d.length : Int)), ("total_frames", ((d.map (·.feat.T)).sum : Int)),
+  [("num_utterances", (d.length : Int)), ("total_frames", (((d.map (·.feat.T)).sum : Nat) : Int)),
    ("max_ali_class", maxAli), ("max_ref_class", maxRef),
    -- the sum of R over the directory if references are available, -1 if not
    ("total_tokens", if d.any (fun u => u.ref.isSome) then (rows.length : Int) else -1)]
@@ -210,8 +210,33 @@ def recount (d : Dir) : List (String × Int) :=
       | some u => (u.feat.dims[1]?).toList.map fun (F : Nat) => ("num_filts", (F : Int))
       | none => [])
   ++ classKeys "count_" "segs_" maxAli (fun i => (ali.count i : Int))
-       (fun i => ((d.map fun u => segCount i u.aliVals).sum : Int))
+       (fun i => (((d.map fun u => segCount i u.aliVals).sum : Nat) : Int))
   ++ classKeys "rcount_" "rsegs_" maxRef (rcountOf rows)
        (fun i => ((rows.filter (fun r => r.tok = i)).length : Int))
+
+/-! ## Utterance discovery: which ids a data set lists, as a property of the directory listings -/
+
+/-- The file `x` counts towards the data set: it carries the prefix and the suffix. -/
+def Matches (pre suf x : FName) : Prop := pre <+: x ∧ suf <:+ x
+
+/-- `x` is a file of utterance `id`: it counts, and `id` is what remains when the prefix and the
+suffix are cut off. -/
+def IsFileOf (pre suf id x : FName) : Prop := Matches pre suf x ∧ id = stripName pre suf x
+
+/-- The directory with listing `files` holds a file of utterance `id`. -/
+def InDir (pre suf : FName) (files : List FName) (id : FName) : Prop := ∃ x ∈ files, IsFileOf pre suf id x
+
+/-- A companion sub-directory (`ali/`, `ref/`) is in use: it is looked at, exists, and holds at least
+one file that counts. -/
+def DirUsed (pre suf : FName) : Option (List FName) → Prop
+  | none => False
+  | some files => ∃ x ∈ files, Matches pre suf x
+
+/-- `id` is an utterance of the data set: it has a feature file, it belongs to the subset if one
+was given, and it has a file in every companion sub-directory in use. -/
+def Discovered (pre suf : FName) (subset : List FName) (l : Listing) (id : FName) : Prop :=
+  InDir pre suf l.feat id ∧ (subset ≠ [] → id ∈ subset)
+  ∧ (DirUsed pre suf l.ali → InDir pre suf (l.ali.getD []) id)
+  ∧ (DirUsed pre suf l.ref → InDir pre suf (l.ref.getD []) id)
 
 end PdtVerif.DataDir
